@@ -54,7 +54,10 @@ class Snap:
         self.by_ord = {}
         for p in self.claimed:
             self.by_ord.setdefault(parse_name(p["name"])[1], []).append(p)
-        self.domain_ok = all(p["phase"] != "" for p in self.claimed) and all(len(v) == 1 for k, v in self.by_ord.items() if k >= 0)
+        # domain of the per-reconcile monitors: non-empty phases, canonical names (S-<ordinal> printed as %d), distinct ordinals
+        self.domain_ok = (all(p["phase"] != "" for p in self.claimed)
+                          and all(len(v) == 1 for k, v in self.by_ord.items() if k >= 0)
+                          and all(parse_name(p["name"])[1] < 0 or p["name"] == "%s-%d" % (self.name, parse_name(p["name"])[1]) for p in self.claimed))
         # revisions as written / known
         st = None
         for c in self.calls:
@@ -293,3 +296,117 @@ def mon_c12(sn):
 
 def mon_c15(sn):
     return ["the controller panicked: " + sn.obs.get("msg", "")] if sn.obs["result"] == "panic" else []
+
+
+def listed_revs(sn):
+    """revisions the controller can see for this set: selector labels or its marker, orphan or its own, by name once"""
+    s = sn.set
+    out = {}
+    for r in sn.sc["api"]["revs"]:
+        if r["labels_nil"] or not (r["match"] or r["marker"] == s["name"]):
+            continue
+        if r["owner"] is not None and r["owner"].get("controller", True) and r["owner"]["uid"] != s["uid"]:
+            continue
+        out.setdefault(r["name"], r)
+    return out
+
+
+def mon_c13(sn, faulty):
+    bad = []
+    if not sn.ok:
+        return bad
+    s = sn.set
+    dels = [c for c in sn.calls if c["verb"] == "delete" and c["res"] == "controllerrevisions"]
+    if not dels:
+        return bad
+    allrevs = {r["name"]: r for r in sn.sc["api"]["revs"]}
+    created = {c["name"]: c for c in sn.calls if c["verb"] == "create" and c["res"] == "controllerrevisions" and not c.get("err")}
+    listed = listed_revs(sn)
+    # adoption / label sync earlier in this reconcile make more revisions the set's own
+    live = {p["rev"] for p in sn.claimed}
+    if sn.upd is not None:
+        live.add(sn.upd)
+    if sn.cur_written is not None:
+        live.add(sn.cur_written)
+        live.add(s["status"]["currentRevision"])
+    limit = s["rhl"] if s["rhl"] is not None else 0
+    seen = set()
+    for c in dels:
+        n = c["name"]
+        if n in seen:
+            bad.append("revision %s deleted twice in one reconcile" % n)
+        seen.add(n)
+        r = allrevs.get(n)
+        if r is None:
+            bad.append("delete of a revision %s that does not exist in the snapshot" % n)
+            continue
+        if r["owner"] is not None and r["owner"]["uid"] != s["uid"]:
+            bad.append("revision %s controlled by %s/%s deleted" % (n, r["owner"]["kind"], r["owner"]["name"]))
+        if n not in listed:
+            bad.append("revision %s deleted although it does not belong to this set" % n)
+        if n in live:
+            bad.append("live revision %s (current, update or named by a pod) deleted" % n)
+    if sn.upd is not None and sn.cur_written is not None:
+        unused = sorted([r for r in listed.values() if r["name"] not in live], key=lambda r: (r["revision"], r["created"], r["name"]))
+        if len(unused) <= limit:
+            bad.append("history trimmed although only %d unused revisions exist (limit %d)" % (len(unused), limit))
+        want = [r["name"] for r in unused[:max(len(unused) - limit, 0)]]
+        got = [c["name"] for c in dels]
+        if got != want[:len(got)]:
+            bad.append("revisions deleted %s, the oldest unused beyond the limit are %s" % (got, want))
+        if not faulty and sn.obs["result"] == "ok" and len(unused) - len([g for g in got if g in {u['name'] for u in unused}]) > limit:
+            bad.append("after a successful reconcile %d unused revisions remain (limit %d)" % (len(unused) - len(got), limit))
+    return bad
+
+
+def mon_c10(sn):
+    bad = []
+    if not sn.ok:
+        return bad
+    s = sn.set
+    cache_pods = {p["name"]: p for p in sn.sc["cache"]["pods"]}
+    api_revs = {r["name"]: r for r in sn.sc["api"]["revs"]}
+    got_ok = False
+    created = set()
+    adopted_revs = set()
+    for i, c in enumerate(sn.calls):
+        v, res, n = c["verb"], c["res"], c.get("name", "")
+        if v == "get" and res == "statefulsets" and not c.get("err"):
+            got_ok = True
+        if res == "statefulsets" and v not in ("get",) and not (v == "update" and c.get("sub") == "status"):
+            bad.append("the set itself written through %s %s" % (v, c.get("sub", "")))
+        if res == "pods":
+            p = cache_pods.get(n)
+            mine = p is not None and p["owner"] is not None and p["owner"]["uid"] == s["uid"] and p["owner"].get("controller", True)
+            if v == "patch" and c.get("kind") == "adopt":
+                if not got_ok:
+                    bad.append("pod %s adopted without a preceding successful fresh GET of the set" % n)
+                if p is None or p["owner"] is not None or not p["match"] or parse_name(n)[0] != s["name"] or p["term"] or s["deleting"]:
+                    bad.append("pod %s adopted although it is not an unowned, matching, live member" % n)
+                api_set = sn.sc["api"].get("set")
+                if api_set is None or api_set["uid"] != s["uid"] or api_set["deleting"]:
+                    bad.append("pod %s adopted although the live set is gone, replaced or being deleted" % n)
+            elif v == "patch":
+                if not mine or (p["match"] and parse_name(n)[0] == s["name"]):
+                    bad.append("pod %s released although it is not an owned, no longer matching pod" % n)
+            elif v == "create":
+                created.add(n)
+            elif v in ("delete", "update"):
+                adopted = any(x["verb"] == "patch" and x["res"] == "pods" and x.get("kind") == "adopt" and x["name"] == n and not x.get("err") for x in sn.calls[:i])
+                if not (mine or adopted or n in created):
+                    # identity repair renames: the update goes to the canonical name of an owned pod
+                    src = [q for q in sn.claimed if "%s-%d" % (s["name"], parse_name(q["name"])[1]) == n]
+                    if not (v == "update" and src):
+                        bad.append("%s of pod %s which this set does not control" % (v, n))
+        if res == "controllerrevisions" and v in ("patch", "update", "delete"):
+            r = api_revs.get(n)
+            if r is not None and r["owner"] is not None and r["owner"].get("controller", True) and r["owner"]["uid"] != s["uid"]:
+                bad.append("%s of ControllerRevision %s controlled by %s/%s" % (v, n, r["owner"]["kind"], r["owner"]["name"]))
+            if v == "patch":
+                if not got_ok:
+                    bad.append("revision %s adopted without a preceding successful fresh GET of the set" % n)
+                if r is not None and r["owner"] is not None:
+                    bad.append("revision %s adopted although it has a controller" % n)
+    if sn.obs.get("cache_mutated"):
+        bad.append("an object read from the informer caches was modified")
+    return bad
